@@ -111,6 +111,63 @@ def pairwise {α} : OpDef Unit (Option α) α (α × α) where
     | none => (some x, [])
     | some p => (some x, [.next (p, x)])
 
+/-! ### `retry_` / `repeat_`: the per-subscription budget
+
+`retry_(source, n)`: `subscribe` builds `gen = range(n)` and hands `(source for _ in gen)` to
+`catch_with_iterable`; `repeat_(source, n)`: `defer` builds `(source for _ in gen)` for
+`concat_with_iterable`.  One instance = one downstream subscription; its events are the
+notifications of its *current* attempt's source subscription.  `budget = none` is `infinite()`.
+(`n ≥ 1`: with `n = 0` the observable completes at once, which the frame model's `create` cannot emit.) -/
+
+inductive BOut (α : Type) where
+  | emit (n : Notif α)
+  | resubscribe            -- the next source of the iterator is subscribed
+deriving Repr, DecidableEq
+
+/-- state: attempts still available after the current one (none = unbounded), done flag -/
+structure BState where
+  left : Option Nat
+  done : Bool
+deriving Repr, DecidableEq
+
+def budgetCreate (n : Option Nat) : BState := ⟨n.map (· - 1), false⟩
+
+/-- `retry`: an error moves on to the next attempt if there is one, else it is forwarded -/
+def retry {α} : Struct.Frame.Sys (Option Nat) BState (Notif α) (BOut α) where
+  create := fun n => (budgetCreate n, n)
+  step := fun n s x =>
+    if s.done then (n, s, [])
+    else
+      match x with
+      | .next v => (n, s, [.emit (.next v)])
+      | .completed => (n, { s with done := true }, [.emit .completed])
+      | .error e =>
+        match s.left with
+        | none => (n, s, [.resubscribe])
+        | some 0 => (n, { s with done := true }, [.emit (.error e)])
+        | some (k + 1) => (n, { s with left := some k }, [.resubscribe])
+
+/-- `repeat`: a completion moves on to the next round if there is one, else it is forwarded -/
+def repeat_ {α} : Struct.Frame.Sys (Option Nat) BState (Notif α) (BOut α) where
+  create := fun n => (budgetCreate n, n)
+  step := fun n s x =>
+    if s.done then (n, s, [])
+    else
+      match x with
+      | .next v => (n, s, [.emit (.next v)])
+      | .error e => (n, { s with done := true }, [.emit (.error e)])
+      | .completed =>
+        match s.left with
+        | none => (n, s, [.resubscribe])
+        | some 0 => (n, { s with done := true }, [.emit .completed])
+        | some (k + 1) => (n, { s with left := some k }, [.resubscribe])
+
+def BOut.isResub {α} : BOut α → Bool
+  | .resubscribe => true
+  | _ => false
+
+def countResub {α} (l : List (BOut α)) : Nat := l.countP BOut.isResub
+
 /-- `zip_with_iterable_` **before** the fix: `second = iter(seq)` is evaluated when the operator is
 applied; every subscription pulls from that one iterator.  The shared state *is* the iterator. -/
 def zipIterAsIs {α γ} : Sys (List γ) Bool (Notif α) (Notif (α × γ)) where
